@@ -189,7 +189,7 @@ func c12Body() func(h []dsim.Rec) {
 	e.w.SendBuf = dsim.Pick(300, 1<<16, 4096)
 	dsim.SetDate(time.Date(2026, 5, 1, 0, 0, 0, 0, time.UTC))
 	e.start = time.Now()
-	neps := 1 + dsim.Choose(3)
+	neps := 1 + dsim.Choose(depth(3, 5))
 	for i := 0; i < neps; i++ {
 		e.addEndpoint(dsim.Choose(numEpKinds))
 	}
